@@ -183,7 +183,228 @@ func interpCases(c *Ctx, n int, tweak func(cfg *GenCfg, i int), post func(s *Sce
 	}
 }
 
+// countCalls runs the scenario without fault injection and returns how many store calls it makes.
+func (s Scenario) countCalls() int {
+	s.FailAt = -1
+	st := newStore(s.Kind, deepCopyBalances(s.Bal), deepCopyMeta(s.Meta), -1)
+	runImpl(s.Text, s.Vars, st, s.Flag)
+	return st.ncalls
+}
+
+// c06Program builds `send [A n] (source = @world destination = {p_i to @d_i ...})` or the
+// mirrored source form, with distinct accounts, so that each clause's share is observable.
+func c06Program(g *Gen, r *Rand, n *big.Int, mirrored bool) *GProgram {
+	g.asset = assetPool[r.Weighted(80, 10, 10)]
+	k := 1 + r.Weighted(10, 40, 30, 20)
+	allots := g.allots(k)
+	var amount *GExpr
+	if n.IsInt64() {
+		amount = &GExpr{Kind: XMonetary, A: &GExpr{Kind: XAsset, S: g.asset}, B: &GExpr{Kind: XNumber, N: n}}
+	} else {
+		name := g.freshName()
+		raw := g.asset + " " + n.String()
+		g.prog.Vars = append(g.prog.Vars, &GVarDecl{Type: "monetary", Name: name})
+		g.rawVars[name] = raw
+		amount = &GExpr{Kind: XVar, S: name}
+	}
+	st := &GStmt{Kind: StSend, Sent: &GSent{E: amount}}
+	if mirrored {
+		src := &GSource{Kind: SrcAllot}
+		for i, a := range allots {
+			src.Items = append(src.Items, &GSrcItem{Allot: a, From: &GSource{Kind: SrcOverdraft, E: &GExpr{Kind: XAccount, S: fmt.Sprintf("s%d", i)}}})
+		}
+		st.Src = src
+		st.Dst = &GDest{Kind: DstAccount, E: &GExpr{Kind: XAccount, S: "sink"}}
+	} else {
+		st.Src = &GSource{Kind: SrcAccount, E: &GExpr{Kind: XAccount, S: "world"}}
+		d := &GDest{Kind: DstAllot}
+		for i, a := range allots {
+			to := &GKod{To: &GDest{Kind: DstAccount, E: &GExpr{Kind: XAccount, S: fmt.Sprintf("d%d", i)}}}
+			if r.Chance(1, 12) {
+				to = &GKod{Kept: true}
+			}
+			d.Items = append(d.Items, &GDestItem{Allot: a, To: to})
+		}
+		st.Dst = d
+	}
+	g.prog.Stmts = append(g.prog.Stmts, st)
+	return g.prog
+}
+
 func init() {
+	registry["C01"] = func(c *Ctx) {
+		c.group("scripts", "icase", "judge_C01")
+		interpCases(c, c.size(400, 20000), func(cfg *GenCfg, i int) {
+			cfg.IllTyped = 2
+			cfg.BadAllot = 15
+			cfg.Origins = i%5 == 0
+			cfg.Calls = false
+			cfg.WorldProb = 80
+			cfg.MaxStmts = 5
+		}, nil)
+	}
+	registry["C02"] = func(c *Ctx) {
+		c.group("scripts", "icase", "judge_C02")
+		interpCases(c, c.size(400, 20000), func(cfg *GenCfg, i int) {
+			cfg.IllTyped = 2
+			cfg.BadAllot = 15
+			cfg.NegCaps = 250
+			cfg.Hostile = 150
+			cfg.Calls = false
+			cfg.Origins = i%4 == 0
+		}, nil)
+	}
+	registry["C03"] = func(c *Ctx) {
+		c.group("sends", "icase", "judge_C03")
+		interpCases(c, c.size(400, 20000), func(cfg *GenCfg, i int) {
+			cfg.OneSend = true
+			cfg.SendAll = 0
+			cfg.IllTyped = 3
+			cfg.BadAllot = 25
+			cfg.Calls = false
+			cfg.Saves = i%3 == 0
+			cfg.Origins = i%6 == 0
+		}, nil)
+	}
+	registry["C04"] = func(c *Ctx) {
+		c.group("sends", "icase", "judge_C04")
+		interpCases(c, c.size(400, 20000), func(cfg *GenCfg, i int) {
+			cfg.OneSend = true
+			cfg.SrcOnly = true
+			cfg.SendAll = 350
+			cfg.IllTyped = 2
+			cfg.BadAllot = 25
+			cfg.Calls = false
+			cfg.Saves = i%4 == 0
+			cfg.Origins = false
+			cfg.MaxDepth = 4
+		}, nil)
+	}
+	registry["C05"] = func(c *Ctx) {
+		c.group("sends", "icase", "judge_C05")
+		interpCases(c, c.size(400, 20000), func(cfg *GenCfg, i int) {
+			cfg.OneSend = true
+			cfg.DstOnly = true
+			cfg.SendAll = 0
+			cfg.IllTyped = 2
+			cfg.BadAllot = 25
+			cfg.NegCaps = 200
+			cfg.Calls = false
+			cfg.Saves = false
+			cfg.Origins = false
+			cfg.MaxDepth = 4
+		}, nil)
+	}
+	registry["C06"] = func(c *Ctx) {
+		c.group("splits", "icase", "judge_C06")
+		if c.replay != nil {
+			c.addScenario(scenarioFromInfo(c.replay), "icase")
+			return
+		}
+		root := NewRand(c.seed)
+		n := c.size(300, 4000)
+		for i := 0; i < n; i++ {
+			r := root.Fork()
+			cfg := baseCfg()
+			cfg.BadAllot = 80
+			g := NewGen(r, cfg)
+			var amt *big.Int
+			switch r.Weighted(50, 25, 25) {
+			case 0:
+				amt = bi(int64(r.Intn(41)))
+			case 1:
+				amt = bi(int64(r.Intn(100000)))
+			default:
+				amt = r.Amount(nil, false)
+			}
+			prog := c06Program(g, r, amt, i%4 == 3)
+			s := scenarioFromGen(g, prog, 0, r)
+			c.addScenario(s, "icase")
+		}
+		if c.tier == "thorough" {
+			// exhaustive small scope: portion vectors with denominators <= 6 and <= 3 clauses x totals 0..40
+			count := 0
+			for d := int64(1); d <= 6; d++ {
+				for k := 1; k <= 3; k++ {
+					var rec func(parts []int64, left int64)
+					rec = func(parts []int64, left int64) {
+						if len(parts) == k-1 {
+							all := append(append([]int64{}, parts...), left)
+							for total := int64(0); total <= 40; total += 1 {
+								r := root.Fork()
+								g := NewGen(r, baseCfg())
+								g.asset = "USD"
+								dst := &GDest{Kind: DstAllot}
+								for i, p := range all {
+									dst.Items = append(dst.Items, &GDestItem{Allot: &GAllot{Kind: AlRatio, E: &GExpr{Kind: XRatio, Text: fmt.Sprintf("%d/%d", p, d), Num: bi(p), Den: bi(d)}},
+										To: &GKod{To: &GDest{Kind: DstAccount, E: &GExpr{Kind: XAccount, S: fmt.Sprintf("d%d", i)}}}})
+								}
+								g.prog.Stmts = []*GStmt{{Kind: StSend, Sent: &GSent{E: &GExpr{Kind: XMonetary, A: &GExpr{Kind: XAsset, S: "USD"}, B: &GExpr{Kind: XNumber, N: bi(total)}}},
+									Src: &GSource{Kind: SrcAccount, E: &GExpr{Kind: XAccount, S: "world"}}, Dst: dst}}
+								s := scenarioFromGen(g, g.prog, 0, r)
+								s.Bal = numscript.Balances{}
+								c.addScenario(s, "icase")
+								count++
+							}
+							return
+						}
+						for x := int64(0); x <= left; x++ {
+							rec(append(parts, x), left-x)
+						}
+					}
+					rec(nil, d)
+				}
+			}
+			c.stats["exhaustive_cases"] = count
+		}
+	}
+	registry["C08"] = func(c *Ctx) {
+		c.group("scripts", "icase", "judge_C08")
+		interpCases(c, c.size(300, 20000), func(cfg *GenCfg, i int) {
+			cfg.LeadSaves = true
+			cfg.Saves = true
+			cfg.Calls = false
+			cfg.IllTyped = 0
+			cfg.BadAllot = 10
+			cfg.Origins = false
+			cfg.WorldProb = 60
+		}, nil)
+	}
+	registry["C12"] = func(c *Ctx) {
+		c.group("scripts", "icase", "judge_C12")
+		if c.replay != nil {
+			c.addScenario(scenarioFromInfo(c.replay), "icase")
+			return
+		}
+		root := NewRand(c.seed)
+		n := c.size(220, 8000)
+		for i := 0; i < n; i++ {
+			r := root.Fork()
+			cfg := baseCfg()
+			cfg.IllTyped = 60
+			cfg.Garbage = 120
+			cfg.Hostile = 100
+			cfg.BadAllot = 100
+			if i%3 == 0 {
+				cfg.IllTyped = 5
+				cfg.Garbage = 20
+			}
+			g := NewGen(r, cfg)
+			prog := g.Program()
+			s := scenarioFromGen(g, prog, 0, r)
+			s.Kind = storeKind(r.Weighted(25, 40, 20, 15))
+			c.addScenario(s, "icase")
+			// fault enumeration: a store error at every call index the run reaches
+			ncalls := s.countCalls()
+			c.stats["store_calls_total"] += ncalls
+			for k := 0; k < ncalls; k++ {
+				f := s
+				f.FailAt = k
+				c.addScenario(f, "icase")
+				c.count("fault_injections")
+			}
+		}
+	}
 	registry["interp"] = func(c *Ctx) {
 		c.group("scripts", "icase", "judge_full")
 		interpCases(c, c.size(300, 20000), nil, nil)
